@@ -422,6 +422,23 @@ def r4(F, R):
             rsl = A.slice_back(b, start_locals=[0])
             ok = ok and any(s == cs[0][0] for s, _ in rsl.calls)
         R.check(ok, "left-until-retry/formula", b, "dur.checked_sub(instant.elapsed())", "left_until_retry is not `delay.checked_sub(instant.elapsed())`")
+        # ... returned as it is: on the routine's table no row turns a remaining time into "ready" (`None`) or changes it (a tolerance, a rounding)
+        rows = D.Deep(F, b, max_paths=100).run()
+        # (`a.checked_sub(b)` is modelled by the table engine: None iff a < b, else Some(a - b))
+        elapsed = lambda t: D.mentions(t, lambda y: isinstance(y, tuple) and y and y[0] == "call" and re.search(r"Instant::elapsed$", y[1]) is not None)
+        ok2, why2 = bool(rows) and not any(p.cut for p in rows), "empty table or a loop"
+        n_some = 0
+        for p in rows:
+            time_left = any(a[0] == "bin" and a[1] == "Lt" and elapsed(a[3]) and o is False for a, o in p.conds)
+            if D.is_variant(p.ret, "std::option::Option", "None"):
+                if time_left:
+                    ok2, why2 = False, "a path answers `None` (ready) although the delay has not elapsed yet: " + " ∧ ".join(f"{D.fmt(b, a)[:50]}={o}" for a, o in p.conds)
+            elif D.is_variant(p.ret, "std::option::Option", "Some") and isinstance(p.ret[3][0], tuple) and p.ret[3][0][:2] == ("bin", "Sub") and elapsed(p.ret[3][0][3]) and time_left:
+                n_some += 1
+            else:
+                ok2, why2 = False, f"a path answers {D.fmt(b, p.ret)[:60]}"
+        ok2 = ok2 and n_some >= 1
+        R.check(ok2, "left-until-retry/returned-as-is", b, "the remaining time is returned unchanged", f"left_until_retry: {why2}: a retry can start before its delay has elapsed")
     # drain predicate keeps entries with time left — decided on its path table (deep.py / sched.py), not on its spelling
     aw, get = role_get(F)
     PT = S.PredTable(F)
